@@ -206,6 +206,125 @@ func genC06(rng *hx.Rng, tier string, w *hx.Writer) error {
 		}
 		w.Put(hx.Case{Entry: "evm", Op: 3, Args: hx.L(hx.Zi(0), hx.Z(keccakInt([]byte("m")))), Impl: hx.B(sig), Oracle: o2, Tags: []string{"emit-sig-identity", "nt"}})
 	}
-	_ = kyber.Point(nil)
+	// the same group element handed to Verify as differently built key OBJECTS (fresh scalar multiple in
+	// Jacobian form, parsed from bytes, the negation of a parsed point, a sum, the negated generator):
+	// nothing normalises the object between its construction and the call
+	{
+		base := []*big.Int{new(big.Int).Sub(q, big.NewInt(1)), big.NewInt(2), rng.BigBelow(q), rng.BigBelow(q)}
+		for ki, x := range base {
+			if x.Sign() == 0 {
+				continue
+			}
+			msg := rng.Bytes(1 + rng.Intn(40))
+			sig, err := bls.Sign(Bn, Sc(Bn.G2(), x, q), msg)
+			if err != nil {
+				continue
+			}
+			canonPk := PtBytes(Pt(Bn.G2(), x, q))[1:]
+			reps := []struct {
+				name string
+				mk   func() kyber.Point
+			}{
+				{"parsed", func() kyber.Point {
+					p := Bn.G2().Point()
+					_ = p.UnmarshalBinary(PtBytes(Pt(Bn.G2(), x, q)))
+					return p
+				}},
+				{"negation-of-parsed", func() kyber.Point {
+					p := Bn.G2().Point()
+					_ = p.UnmarshalBinary(PtBytes(Pt(Bn.G2(), new(big.Int).Sub(q, x), q)))
+					return Bn.G2().Point().Neg(p)
+				}},
+				{"negation-in-place", func() kyber.Point {
+					p := Bn.G2().Point()
+					_ = p.UnmarshalBinary(PtBytes(Pt(Bn.G2(), new(big.Int).Sub(q, x), q)))
+					return p.Neg(p)
+				}},
+				{"sum", func() kyber.Point {
+					a := Bn.G2().Point().Mul(Sc(Bn.G2(), new(big.Int).Sub(x, big.NewInt(1)), q), nil)
+					return Bn.G2().Point().Add(a, Bn.G2().Point().Base())
+				}},
+				{"negated-jacobian", func() kyber.Point {
+					return Bn.G2().Point().Neg(Bn.G2().Point().Mul(Sc(Bn.G2(), new(big.Int).Sub(q, x), q), nil))
+				}},
+			}
+			if ki == 0 {
+				reps = append(reps, struct {
+					name string
+					mk   func() kyber.Point
+				}{"negated-generator", func() kyber.Point { return Bn.G2().Point().Neg(Bn.G2().Point().Base()) }})
+			}
+			for _, rp := range reps {
+				for _, good := range []bool{true, false} {
+					sg := append([]byte{}, sig...)
+					if !good {
+						sg = contractNegate(sig)
+					}
+					lib := hx.Catch(func() string {
+						if err := bls.Verify(Bn, rp.mk(), msg, append([]byte{}, sg...)); err != nil {
+							return "z0"
+						}
+						return "z1"
+					})
+					acc, ok := evmVerify(canonPk, msg, sg)
+					oracle := "ok"
+					switch {
+					case lib == hx.P:
+						oracle = hx.Fail("verify-panic", "bls.Verify panicked: "+hx.LastPanic)
+					case !ok:
+						oracle = hx.Fail("evm-rejects-encoding", "a precompile reverted on the library's canonical encodings (key object "+rp.name+")")
+					case acc != (lib == "z1"):
+						oracle = hx.Fail("verify-differs-from-evm", "bls.Verify and the contract equation on the EVM precompiles disagree when the key is handed over as "+rp.name)
+					}
+					w.Put(hx.Case{Entry: "evm", Op: 1, Args: hx.L(hx.Z(x), hx.Z(keccakInt(msg)), hx.B(sg)), Impl: lib, Oracle: oracle,
+						Tags: []string{"key-object", "key-" + rp.name, "nt"}})
+				}
+			}
+		}
+	}
+	// secret key 0 on both sides: the contract equation holds for the identity key and the identity
+	// signature (the EVM encoding of the G2 identity is four zero words), and for nothing else
+	{
+		idKeys := []struct {
+			name string
+			mk   func() kyber.Point
+		}{
+			{"zero-multiple", func() kyber.Point { return Bn.G2().Point().Mul(Sc(Bn.G2(), big.NewInt(0), q), nil) }},
+			{"null", func() kyber.Point { return Bn.G2().Point().Null() }},
+			{"parsed", func() kyber.Point {
+				p := Bn.G2().Point()
+				_ = p.UnmarshalBinary([]byte{0})
+				return p
+			}},
+		}
+		other, _ := bls.Sign(Bn, Sc(Bn.G2(), big.NewInt(5), q), []byte("m"))
+		for _, ik := range idKeys {
+			for _, sc := range []struct {
+				name string
+				sig  []byte
+			}{{"identity-signature", make([]byte, 64)}, {"other-signature", other}} {
+				for _, msg := range [][]byte{[]byte("m"), {}, rng.Bytes(1 << 16)} {
+					lib := hx.Catch(func() string {
+						if err := bls.Verify(Bn, ik.mk(), msg, append([]byte{}, sc.sig...)); err != nil {
+							return "z0"
+						}
+						return "z1"
+					})
+					acc, ok := evmVerify(make([]byte, 128), msg, sc.sig)
+					oracle := "ok"
+					switch {
+					case lib == hx.P:
+						oracle = hx.Fail("verify-panic", "bls.Verify panicked: "+hx.LastPanic)
+					case !ok:
+						oracle = hx.Fail("evm-rejects-encoding", "a precompile reverted on the identity key")
+					case acc != (lib == "z1"):
+						oracle = hx.Fail("verify-differs-from-evm", "bls.Verify and the contract equation on the EVM precompiles disagree for the identity key ("+ik.name+", "+sc.name+")")
+					}
+					w.Put(hx.Case{Entry: "evm", Op: 1, Args: hx.L(hx.Zi(0), hx.Z(keccakInt(msg)), hx.B(sc.sig)), Impl: lib, Oracle: oracle,
+						Tags: []string{"identity-key", "key-" + ik.name, sc.name, "nt"}})
+				}
+			}
+		}
+	}
 	return nil
 }
